@@ -68,7 +68,12 @@ class Facts:
                 self.generic_visit(n)
                 return n
 
-        return F().visit(e)
+        for _ in range(3):  # a property over a cached field over ...
+            before = ast.dump(e)
+            e = F().visit(e)
+            if ast.dump(e) == before:
+                break
+        return e
 
     def text(self, expr) -> str:
         return unparse(self.x(expr))
